@@ -494,6 +494,9 @@ func searchShape(c *Ctx, fd *ast.FuncDecl, what string) string {
 		if loop == nil {
 			return "a path bypasses the search loop"
 		}
+		if r := v.asRange(loop); r != nil {
+			loop = r
+		}
 		if loop.Range == nil || !v.isRecvSpine(loop.Over) {
 			return "the loop does not range over the receiver's own spine"
 		}
@@ -768,6 +771,9 @@ func c06Views(c *Ctx) {
 			p, loop, w := singleLoopPath(paths)
 			msg = w
 			if msg == "" {
+				if r := v.asRange(loop); r != nil {
+					loop = r
+				}
 				switch {
 				case p.End != "return" || len(p.Vals) != 1 || !freshEmptyContainer(c, p.Vals[0], true):
 					msg = "the result is not a fresh list"
